@@ -17,6 +17,13 @@ import numbers
 import time as _time
 
 
+try:
+    import numpy as _np
+    _BOOLS = (bool, _np.bool_)
+except Exception:          # pragma: no cover
+    _BOOLS = (bool,)
+
+
 class _Unknown:
     """Truth value of a condition that depends on runtime data."""
 
@@ -29,13 +36,30 @@ class _Unknown:
     def __bool__(self):
         raise UnknownTruth(self)
 
+    # three-valued logic for elementwise boolean operators on masks (a decided operand decides or passes the other one through)
     def __invert__(self):
-        return self
+        return _Unknown(("not", self))
 
     def __and__(self, o):
-        return self
+        if o is False or (isinstance(o, _BOOLS) and not o):
+            return False
+        if o is True or (isinstance(o, _BOOLS) and o):
+            return self
+        if isinstance(o, _Unknown):
+            return _Unknown(("and", self, o))
+        return NotImplemented
 
-    __rand__ = __or__ = __ror__ = __and__
+    def __or__(self, o):
+        if o is True or (isinstance(o, _BOOLS) and o):
+            return True
+        if o is False or (isinstance(o, _BOOLS) and not o):
+            return self
+        if isinstance(o, _Unknown):
+            return _Unknown(("or", self, o))
+        return NotImplemented
+
+    __rand__ = __and__
+    __ror__ = __or__
 
 
 class UnknownTruth(Exception):
